@@ -463,8 +463,69 @@ def c02_contracts(th):
     return out
 
 
+
+# ---------------------------------------------------------------- C07: parenthesisation of compound renderings
+from pyvc.theories.marker import DOC, doc_of, paren, dkind, dsem, K_ATOM, K_AND, K_OR, K_PAREN, K_EMPTYTOK, K_ANYTOK, Joined   # noqa: E402
+
+
+def ok_in_and(d):
+    """an operand of an `and`-join must not be an unparenthesised `or`-join, nor the <empty>/'' tokens"""
+    return z3.Or(dkind(d) == K_ATOM, dkind(d) == K_AND, dkind(d) == K_PAREN)
+
+
+def ok_in_or(d):
+    return z3.Or(dkind(d) == K_ATOM, dkind(d) == K_AND, dkind(d) == K_OR, dkind(d) == K_PAREN)
+
+
+def ok_under_paren(d):
+    return z3.Or(dkind(d) == K_ATOM, dkind(d) == K_AND, dkind(d) == K_OR, dkind(d) == K_PAREN)
+
+
+class Str(Contract):
+    """MultiMarker.__str__ / MarkerUnion.__str__ on a normal-form compound (no empty/universal child): the text is a join whose
+    operands parse, under PEP 508 precedence, to the children's meanings (so the join parses to the compound's meaning)"""
+
+    def __init__(self, th, kind, q):
+        self.th, self.kind = th, kind
+        self.target = q + "__str__"
+
+    def cases(self, th):
+        m = th.shape.fresh("self")
+        K = AList(None, kids(m.term), z3.IntVal(0), nkids(m.term))
+        yield self.kind, [m], [is_cls(m.term, self.kind), fa(K, lambda t: z3.Not(is_cls(t, "AnyMarker", "EmptyMarker")))]
+
+    def allowed_raise(self, ex, args, exc):
+        return z3.BoolVal(False)
+
+    def ensures(self, ex, args, result):
+        m = args[0].term
+        if not isinstance(result, Joined):
+            return [("C07.returns-a-join", z3.BoolVal(False))]
+        docs = result.docs
+        K = AList(None, kids(m), z3.IntVal(0), nkids(m))
+        i = z3.Int(fresh_name("i"))
+        ok = ok_in_and if self.kind == "MultiMarker" else ok_in_or
+        return [("C07.join-operator", z3.BoolVal(result.op == ("and" if self.kind == "MultiMarker" else "or"))),
+                ("C07.one-operand-per-child", docs.n == K.n),
+                ("C07.operands-parse-at-this-precedence", z3.ForAll([i], z3.Implies(z3.And(0 <= i, i < docs.n), ok(at(docs, i))))),
+                ("C07.operands-mean-the-children", z3.ForAll([i], z3.Implies(z3.And(0 <= i, i < docs.n), dsem(at(docs, i)) == ev(at(K, i)))))]
+
+    def inv(self, st):
+        docs = st.loc("elements" if self.kind == "MultiMarker" else "__acc")
+        m = st.loc("self").term
+        K = AList(None, kids(m), z3.IntVal(0), nkids(m))
+        i = z3.Int(fresh_name("i"))
+        ok = ok_in_and if self.kind == "MultiMarker" else ok_in_or
+        return [("len", docs.n == st.k), ("parse", z3.ForAll([i], z3.Implies(z3.And(0 <= i, i < docs.n), ok(at(docs, i))))),
+                ("mean", z3.ForAll([i], z3.Implies(z3.And(0 <= i, i < docs.n), dsem(at(docs, i)) == ev(at(K, i)))))]
+
+
+def c07_contracts(th):
+    return [Str(th, "MultiMarker", MM), Str(th, "MarkerUnion", MU)]
+
+
 def all_contracts(th):
-    cs = [FlattenItems(th), Of(th, "MultiMarker"), Of(th, "MarkerUnion")] + c12_contracts(th) + c02_contracts(th)
+    cs = [FlattenItems(th), Of(th, "MultiMarker"), Of(th, "MarkerUnion")] + c12_contracts(th) + c02_contracts(th) + c07_contracts(th)
     return {c.target: c for c in cs}
 
 
@@ -499,6 +560,10 @@ def loop_specs(th):
     specs[(U + "dnf", 3)] = (L, [LoopSpec({"__acc": L}, nf_d.comp)])
     specs[(U + "union", 1)] = (L, [LoopSpec({"__acc": L}, UnionFn.filt)])
     specs[(U + "union", 2)] = LoopSpec({"unnormalized": th.shape}, UnionFn.unwrap)
+    DL = ListS(th.dshape)
+    sm, su = c07_contracts(th)
+    specs[(sm.target, 0)] = LoopSpec({"elements": DL}, sm.inv)
+    specs[(su.target, 0)] = (DL, [LoopSpec({"__acc": DL}, su.inv)])
     for c in c12_contracts(th):
         if c.owner in ("multi", "union"):
             if isinstance(c, Exclude) and c.method == "exclude":
